@@ -19,7 +19,7 @@ run_demo() {
   else PYTHONPATH=$wt/src timeout 600 /venv/bin/python _demo/demo.py > "$1" 2>&1; echo $?; fi
 }
 rc_without=$(run_demo /tmp/confirm/${id}_$m.demo_without.log)
-if git apply "$src/patch.diff"; then applied=yes; else applied=no; fi
+if git apply "$src/patch.diff" 2>/dev/null; then applied=yes; elif git apply -3 "$src/patch.diff" && ! grep -rq "^<<<<<<<" src; then applied=yes-3way; git diff HEAD -- src > /tmp/confirm/${id}_$m.ported.diff; else applied=no; fi
 rc_with=$(run_demo /tmp/confirm/${id}_$m.demo_with.log)
 PYTHONPATH=$wt/src timeout 1500 /venv/bin/python -m pytest -q -p no:cacheprovider --timeout=900 testing > /tmp/confirm/${id}_$m.suite.log 2>&1
 fails=$(grep -E "^(FAILED|ERROR)" /tmp/confirm/${id}_$m.suite.log | grep -v -E "test_channel_passing_over_channel|test_dont_write_bytecode|test__rinfo|test_waitclose_on_remote_killed" | tr '\n' ';')
